@@ -418,3 +418,6 @@ RULES = [
     ("C17.EVALPARAM", 6, rule_evalparam),
     ("C17.FRAMEMAP", 4, rule_framemap),
 ]
+
+from . import common as _common_purity
+RULES = RULES + _common_purity.purity_rules("C17")
